@@ -6,3 +6,8 @@ demo=$(readlink -f "$1"); pkg=$2; name=$3
 d=$(mktemp -d); trap 'rm -rf $d' EXIT
 echo "{\"Replace\":{\"/repo/$pkg/$(basename $demo)\":\"$demo\"}}" > $d/ov.json
 cd /repo && go test -overlay $d/ov.json -vet=off -count=1 -timeout 300s -run "^$name\$" -v ./$pkg
+rc=$?
+# the repository's test scaffolding removes tracked fixture files on teardown: put them back
+git -C /repo ls-files -d -z | xargs -0 -r git -C /repo checkout -- 2>/dev/null
+git -C /repo clean -fdq -- masswallet api 2>/dev/null
+exit $rc
